@@ -198,17 +198,31 @@ class WorldFromFileHandle(WorldHandle):
         ))
 
 
-def _copy_structure(data):
+def _copy_structure(data, _memo=None):
     """Copy nested dictionaries and lists, sharing all other values.
 
     Arguments already resolved by a previous transformer can be
     arbitrary objects (modules, resources, ...), which are not
-    copyable in general.
+    copyable in general. Containers that contain themselves are
+    copied once.
     """
-    if isinstance(data, dict):
-        return {k: _copy_structure(v) for k, v in data.items()}
-    if isinstance(data, list):
-        return [_copy_structure(v) for v in data]
+    if _memo is None:
+        _memo = {}
+
+    if id(data) in _memo:
+        return _memo[id(data)]
+
+    if type(data) is dict:
+        copied = _memo[id(data)] = {}
+        copied.update((k, _copy_structure(v, _memo))
+                      for k, v in data.items())
+        return copied
+
+    if type(data) is list:
+        copied = _memo[id(data)] = []
+        copied.extend(_copy_structure(v, _memo) for v in data)
+        return copied
+
     return data
 
 
